@@ -174,3 +174,10 @@ func VerifMergeRangeScan(perShard [][]GetResult) []GetResult {
 	}
 	return res
 }
+
+// VerifStreamWrapper is the client's write stream wrapper over a stream supplied by the harness.
+type VerifStreamWrapper = internal.VerifStreamWrapper
+
+func VerifNewStreamWrapper(shard int64, stream proto.OxiaClient_WriteStreamClient) *VerifStreamWrapper {
+	return internal.VerifNewStreamWrapper(shard, stream)
+}
